@@ -28,7 +28,7 @@ class Den:
 def den(T):
   """Denotation from the fields of a qtools IQuantizer object (raw convention: int_bits excludes the sign)."""
   if getattr(T, "is_floating_point", False) or T.mode == 5:
-    return Den("float")
+    return Den("float", bits=int(T.bits))
   mode = T.mode
   signed = int(bool(T.is_signed))
   if getattr(T, "is_po2", 0) or mode == 1:
@@ -153,7 +153,7 @@ def operand_specs(max_fixed_bits=16, po2_bits=(2, 8)):
     for mv in (None, 0.25, 0.5, 1.0, 2.0, 4.0, 8.0, 16.0):
       specs.append(("po2", bits, mv))
       specs.append(("rpo2", bits, mv))
-  specs += [("ternary",), ("binary",), ("binary01",), ("sternary",), ("sbinary",), ("bernoulli",), ("float",)]
+  specs += [("ternary",), ("binary",), ("binary01",), ("sternary",), ("sbinary",), ("bernoulli",), ("float",), ("float16",)]
   return specs
 
 
@@ -188,6 +188,8 @@ def make_type(spec):
   qf = quantizer_factory.QuantizerFactory()
   if spec[0] == "float":
     return qf.make_default_quantizer("fp32")
+  if spec[0] == "float16":
+    return qf.make_default_quantizer("fp16")
   return qf.make_quantizer(make_qkeras(spec))
 
 
